@@ -2,6 +2,7 @@ import ObiVerif.Model.SeqOps
 import ObiVerif.Lemmas.SeqOps
 import ObiVerif.Lemmas.SeqHeapStep
 import ObiVerif.Lemmas.SeqHeapRefine
+import ObiVerif.Lemmas.SeqAnnot
 /-!
 # C07 — reverse complement, subsequence and copy obey their algebraic laws (property theorems)
 
@@ -727,5 +728,103 @@ theorem setFeaturesOld_breaks :
   have hp : 5 ∈ (demoHeap.setFeaturesOld 3 demoFeat 0).pool := by rw [hp0]; simp
   have hf : Fld (demoHeap.setFeaturesOld 3 demoFeat 0) 5 := ⟨"b", ⟨3, []⟩, hb, by decide, by decide⟩
   exact ⟨hp, hf, fun hI => hI.poolNotFld 5 hp hf, rfl, _, rfl, rfl, rfl, rfl, rfl⟩
+
+/-! ## Whole-object laws: bases, qualities AND the `pairing_mismatches` attribute (Model/SeqAnnot.lean) -/
+
+set_option maxRecDepth 8192 in
+theorem cc_fixed_nat : ∀ n, n < 256 →
+    (nucComplement (nucComplement (UInt8.ofNat n)) = UInt8.ofNat n ↔ UInt8.ofNat n ∈ alphabet) := by decide
+
+/-- over ALL 256 bytes (decided on the generated table): complementing twice restores a byte exactly when
+it belongs to the 19-symbol alphabet of the property (upper-case letters come back lower-case, `u` comes
+back as `t`, every other byte as `n`) -/
+theorem cc_fixed_iff (b : UInt8) : SeqAnnot.cc b = b ↔ b ∈ alphabet := by
+  have := cc_fixed_nat b.toNat (UInt8.toNat_lt b)
+  simpa [SeqAnnot.cc] using this
+
+/-- **the key rewriting of `_revcmpMutation` is an involution exactly on the well-formed keys**: for a key
+of at least 13 bytes, rewriting twice gives the key back iff its two symbols (bytes 1 and 9) belong to the
+alphabet; a shorter key makes `rev` panic (`SeqAnnot.revcmpKey_none_iff`) -/
+theorem revcmpKey_involutive_iff_alphabet (k : Bytes) (h : 13 ≤ k.length) :
+    (revcmpKey k).bind revcmpKey = some k ↔ (k.getD 1 0 ∈ alphabet ∧ k.getD 9 0 ∈ alphabet) := by
+  rw [SeqAnnot.revcmpKey_involutive_iff k h, cc_fixed_iff, cc_fixed_iff]
+
+theorem revcmpKey_panics_iff (k : Bytes) : revcmpKey k = none ↔ k.length < 13 := SeqAnnot.revcmpKey_none_iff k
+
+/-- `(a:30)->(c:12)` ↦ `(g:12)->(t:30)` ↦ back -/
+example : revcmpKey [40, 97, 58, 51, 48, 41, 45, 62, 40, 99, 58, 49, 50, 41] =
+      some [40, 103, 58, 49, 50, 41, 45, 62, 40, 116, 58, 51, 48, 41] ∧
+    (revcmpKey [40, 97, 58, 51, 48, 41, 45, 62, 40, 99, 58, 49, 50, 41]).bind revcmpKey =
+      some [40, 97, 58, 51, 48, 41, 45, 62, 40, 99, 58, 49, 50, 41] :=
+  ⟨by decide, (revcmpKey_involutive_iff_alphabet _ (by decide)).mpr (by decide)⟩
+
+/-- an ill-formed key (`x` is no IUPAC code) is not restored: `(x:30)->(c:12)` comes back as `(n:30)->(c:12)` -/
+example : (revcmpKey [40, 120, 58, 51, 48, 41, 45, 62, 40, 99, 58, 49, 50, 41]).bind revcmpKey ≠
+    some [40, 120, 58, 51, 48, 41, 45, 62, 40, 99, 58, 49, 50, 41] := by
+  rw [Ne, revcmpKey_involutive_iff_alphabet _ (by decide)]; decide
+
+/-- well-formed whole object: bases over the alphabet, qualities absent or as long as the bases, every
+`pairing_mismatches` key at least 13 bytes long with its two symbols in the alphabet -/
+structure WFObj (o : SeqAnnot.WObj) : Prop where
+  seq : ∀ b ∈ o.seq, b ∈ alphabet
+  qual : o.qual = [] ∨ o.qual.length = o.seq.length
+  keys : ∀ m, o.mm = some m → ∀ kp ∈ m, 13 ≤ kp.1.length ∧ kp.1.getD 1 0 ∈ alphabet ∧ kp.1.getD 9 0 ∈ alphabet
+
+/-- **rc (rc x) = x on the whole object**: bases, qualities, and every annotation `ReverseComplement`
+rewrites (keys and positions of `pairing_mismatches`); the other annotations are carried unchanged.
+Neither call panics. -/
+theorem rcW_rcW (o : SeqAnnot.WObj) (hw : WFObj o) :
+    ∃ o', SeqAnnot.rcW o = some o' ∧ SeqAnnot.rcW o' = some o :=
+  SeqAnnot.rcW_rcW o
+    ⟨hw.qual, fun m hm kp hkp => ⟨(hw.keys m hm kp hkp).1, (cc_fixed_iff _).mpr (hw.keys m hm kp hkp).2.1,
+      (cc_fixed_iff _).mpr (hw.keys m hm kp hkp).2.2⟩⟩
+    (rc_rc_inplace o.seq hw.seq)
+
+/-- non-vacuity: an object with qualities and two mismatches -/
+example : ∃ o', SeqAnnot.rcW ⟨[97, 99, 103, 116, 110], [1, 2, 3, 4, 5],
+      some [([40, 97, 58, 51, 48, 41, 45, 62, 40, 99, 58, 49, 50, 41], 2),
+            ([40, 116, 58, 49, 50, 41, 45, 62, 40, 45, 58, 48, 48, 41], 5)], []⟩ = some o' ∧
+    SeqAnnot.rcW o' = some ⟨[97, 99, 103, 116, 110], [1, 2, 3, 4, 5],
+      some [([40, 97, 58, 51, 48, 41, 45, 62, 40, 99, 58, 49, 50, 41], 2),
+            ([40, 116, 58, 49, 50, 41, 45, 62, 40, 45, 58, 48, 48, 41], 5)], []⟩ :=
+  rcW_rcW _ ⟨by decide, Or.inr rfl, by
+    intro m hm kp hkp
+    simp only [Option.some.injEq] at hm
+    subst hm
+    simp only [List.mem_cons, List.not_mem_nil, or_false] at hkp
+    rcases hkp with e | e <;> subst e <;> decide⟩
+
+/-- no two well-formed keys are rewritten to the same key: the Go map written by `_revcmpMutation` has as
+many entries as the one it reads, whatever the iteration order -/
+theorem revcmpKey_no_collision {k1 k2 k : Bytes}
+    (h1 : 13 ≤ k1.length ∧ k1.getD 1 0 ∈ alphabet ∧ k1.getD 9 0 ∈ alphabet)
+    (h2 : 13 ≤ k2.length ∧ k2.getD 1 0 ∈ alphabet ∧ k2.getD 9 0 ∈ alphabet)
+    (e1 : revcmpKey k1 = some k) (e2 : revcmpKey k2 = some k) : k1 = k2 :=
+  SeqAnnot.revcmpKey_injective ⟨h1.1, (cc_fixed_iff _).mpr h1.2.1, (cc_fixed_iff _).mpr h1.2.2⟩
+    ⟨h2.1, (cc_fixed_iff _).mpr h2.2.1, (cc_fixed_iff _).mpr h2.2.2⟩ e1 e2
+
+/-- … and ill-formed keys do collide: `(x:30)->(c:12)` and `(n:30)->(c:12)` are both rewritten to
+`(g:12)->(n:30)` (then the surviving entry depends on Go's map iteration order) -/
+example : revcmpKey [40, 120, 58, 51, 48, 41, 45, 62, 40, 99, 58, 49, 50, 41] =
+    revcmpKey [40, 110, 58, 51, 48, 41, 45, 62, 40, 99, 58, 49, 50, 41] := by decide
+
+/-- the position transforms of cut-then-mirror and mirror-then-cut agree on every position of the sequence
+(the `pairing_mismatches` part of rc (sub x) = sub' (rc x)) -/
+theorem subseqPos_revcmpPos (n fr to : Nat) (p : Int) (hft : fr < to) (hto : to ≤ n) (h1 : 1 ≤ p) (hn : p ≤ n) :
+    (subseqPos fr n (to - fr : Nat) p).map (revcmpPos (to - fr : Nat)) =
+      subseqPos (n - to : Nat) n (to - fr : Nat) (revcmpPos n p) :=
+  SeqAnnot.subseqPos_revcmpPos n fr to p hft hto h1 hn
+
+example : (subseqPos 1 5 3 3).map (revcmpPos 3) = subseqPos 1 5 3 (revcmpPos 5 3) :=
+  subseqPos_revcmpPos 5 1 4 3 (by decide) (by decide) (by decide) (by decide)
+
+/-- **the proposed finding as a theorem** (`BioSequence.Join`, pkg/obiseq/join.go): joining a non-empty
+sequence to a receiver that has qualities leaves an object on which `ReverseComplement` panics -/
+theorem join_then_rc_panics (o o2 : SeqAnnot.WObj) (hq : o.qual ≠ []) (hl : o.qual.length = o.seq.length)
+    (h2 : o2.seq ≠ []) : SeqAnnot.rcW (SeqAnnot.joinW o o2) = none :=
+  SeqAnnot.join_then_rc_panics o o2 hq hl h2
+
+example : SeqAnnot.rcW (SeqAnnot.joinW ⟨[97, 99], [1, 2], none, []⟩ ⟨[103, 103], [], none, []⟩) = none :=
+  join_then_rc_panics _ _ (by decide) rfl (by decide)
 
 end ObiVerif.Props.C07
